@@ -98,8 +98,7 @@ class Flow:
                         break
                 if hit is not None:
                     caught_by = hit
-                    if not self.quiet:
-                        fr.caught.append((c, node, why))
+                    fr.caught.append((c, node, why, hit))
                     break
             if caught_by is None:
                 escaping.append(c)
@@ -436,8 +435,12 @@ class Flow:
         else_out = self.block(s.orelse, body_out) if s.orelse else body_out
         h_in = self.meet_opt(*fr.states)
         outs = [else_out]
+        prune = getattr(d, "prune_dead_handlers", False)
         for (hcls, hd) in handlers:
             hi = d.bind_handler(hd, h_in, self) if h_in is not None else None
+            if prune and hcls is not None and not any(x in ("Exception", "BaseException") for x in hcls) \
+                    and not any(c[3] is hd for c in fr.caught):
+                hi = None  # nothing the partial-operation table knows of can reach this handler
             outs.append(self.block(hd.body, hi))
         out = self.meet_opt(*outs)
         if s.finalbody:
